@@ -233,7 +233,7 @@ Lemma coinbase_tx_unfold cs spk reward height regtest wroot :
     tx_raw [txin_] [txout_; commit_out] 1 0 [wit])))
   else tx_raw [txin_] [txout_] 1 0 []))).
 Proof.
-  unfold coinbase_tx, reward_step. rewrite model_interval.
+  unfold coinbase_tx, coinbase_tx_with, floordiv_pow2, reward_step. rewrite model_interval.
   destruct height as [h|]; [|reflexivity].
   destruct (Z.ltb_spec h 0) as [N|N]; [reflexivity|].
   rewrite subsidy_model by (try apply interval_pos; lia). reflexivity.
@@ -271,12 +271,31 @@ Proof.
   rewrite app_nil_r. repeat rewrite <- app_assoc. reflexivity.
 Qed.
 
+(* the extracted program uses [floordiv_pow2_fast]; it is the same function *)
+Lemma floordiv_pow2_fast_eq a k : 0 < a -> 0 <= k -> floordiv_pow2_fast a k = floordiv_pow2 a k.
+Proof.
+  intros Ha Hk. unfold floordiv_pow2_fast, floordiv_pow2.
+  destruct (Z.ltb_spec (Z.log2 a) k) as [L|L].
+  - symmetry. apply Z.div_small. split; [lia|]. apply Z.log2_lt_pow2; lia.
+  - apply Z.shiftr_div_pow2. exact Hk.
+Qed.
+
+Theorem coinbase_tx_fast_eq cs spk reward height regtest wroot :
+  coinbase_tx_fast cs spk reward height regtest wroot = coinbase_tx cs spk reward height regtest wroot.
+Proof.
+  unfold coinbase_tx_fast, coinbase_tx, coinbase_tx_with.
+  destruct height as [h|]; [|reflexivity].
+  destruct (Z.ltb_spec h 0) as [N|N]; [reflexivity|].
+  rewrite floordiv_pow2_fast_eq; [reflexivity | lia |].
+  apply Z.div_pos; [lia | destruct regtest; cbn; lia].
+Qed.
+
 (* MAIN inversion: every successfully built coinbase has the prescribed shape *)
 Theorem coinbase_tx_inv cs spk reward height regtest wroot t :
   coinbase_tx cs spk reward height regtest wroot = Ok t ->
   exists script value commit,
     prepend_height cs height = Ok script /\ (length script <= 100)%nat /\
-    claimed reward height regtest = Some value /\ 0 <= value < 2 ^ 64 /\
+    claimed reward height regtest = Some value /\ 0 <= value < 2 ^ 64 /\ zlen spk < 2 ^ 64 /\
     (forall h, height = Some h -> 0 <= h /\ value <= subsidy h (interval_of regtest)) /\
     commit_spk wroot = Ok commit /\
     t = coinbase_expected script value spk commit.
@@ -297,17 +316,17 @@ Proof.
   { unfold coinbase_expected, coinbase_legacy. cbn [map concat fst snd]. now rewrite app_nil_r. }
   destruct wroot as [[|b r]|]; cbn [py_truthy_bytes] in E.
   - exists None. rewrite tx_raw_legacy in E. apply ok_inj in E. subst t. rewrite Leg.
-    repeat (split; [first [exact P | exact L | symmetry; exact Rc | exact Vr | exact Hh | reflexivity]|]).
+    repeat (split; [first [exact P | exact L | symmetry; exact Rc | exact Vr | exact Sr | exact Hh | reflexivity]|]).
     reflexivity.
   - apply bind_ok in E as (push & SP & E). apply bind_ok in E as (co & CO & E).
     rewrite reserved_witness in E. cbn [bind] in E. rewrite tx_raw_segwit in E.
     apply txout_inv in CO as (_ & _ & ->).
     exists (Some ([x6a] ++ push)). cbn [commit_spk]. cbv zeta in SP. rewrite SP. cbn [rmap].
     apply ok_inj in E. subst t.
-    repeat (split; [first [exact P | exact L | symmetry; exact Rc | exact Vr | exact Hh | reflexivity]|]).
+    repeat (split; [first [exact P | exact L | symmetry; exact Rc | exact Vr | exact Sr | exact Hh | reflexivity]|]).
     apply segwit_layout.
   - exists None. rewrite tx_raw_legacy in E. apply ok_inj in E. subst t. rewrite Leg.
-    repeat (split; [first [exact P | exact L | symmetry; exact Rc | exact Vr | exact Hh | reflexivity]|]).
+    repeat (split; [first [exact P | exact L | symmetry; exact Rc | exact Vr | exact Sr | exact Hh | reflexivity]|]).
     reflexivity.
 Qed.
 
@@ -375,6 +394,36 @@ Proof.
   - destruct (script_push _); cbn [rmap]; intros E; inversion E.
     split; [intros _; eauto | discriminate].
   - intros E; inversion E. split; [congruence | intros (? & ? & ?); discriminate].
+Qed.
+
+Lemma script_push_length data p : script_push data = Ok p -> zlen p <= zlen data + 5 /\ zlen data < 2 ^ 32.
+Proof.
+  unfold script_push. pose proof (zlen_nonneg data) as N.
+  destruct (Z.ltb_spec 75 (zlen data)) as [G|G].
+  - assert (B : (bit_length (zlen data) + 7) / 8 <= 4 -> zlen data < 2 ^ 32).
+    { intros M. rewrite bit_length_pos in M by lia.
+      assert (Z.log2 (zlen data) < 32).
+      { destruct (Z_lt_le_dec (Z.log2 (zlen data)) 32) as [|C]; [assumption|]. exfalso.
+        assert (5 <= (Z.log2 (zlen data) + 1 + 7) / 8) by (apply Z.div_le_lower_bound; lia). lia. }
+      apply Z.log2_lt_pow2; lia. }
+    destruct (Z.eqb_spec ((bit_length (zlen data) + 7) / 8) 1) as [E1|_];
+      [|destruct (Z.eqb_spec ((bit_length (zlen data) + 7) / 8) 2) as [E2|_];
+        [|destruct (Z.leb_spec ((bit_length (zlen data) + 7) / 8) 4) as [E4|_]]];
+      intros E; try discriminate; apply ok_inj in E; subst p; unfold zlen in *;
+      rewrite !app_length, to_le_length; cbn [length]; (split; [lia | apply B; lia]).
+  - intros E. apply ok_inj in E. subst p. unfold zlen in *. rewrite app_length, to_le_length.
+    split; [lia|]. apply Z.le_lt_trans with 75; [lia | reflexivity].
+Qed.
+
+Lemma commit_spk_length wroot c : commit_spk wroot = Ok (Some c) -> zlen c < 2 ^ 64.
+Proof.
+  destruct wroot as [[|b r]|]; cbn [commit_spk]; try discriminate.
+  destruct (script_push ([xaa; x21; xa9; xed] ++ b :: r)) as [p|e] eqn:SP; cbn [rmap]; [|discriminate].
+  intros E. apply ok_inj in E. injection E as <-.
+  apply script_push_length in SP as [L1 L2]. unfold zlen in *.
+  set (n := Z.of_nat (length ([xaa; x21; xa9; xed] ++ b :: r))) in *.
+  cbn [app length]. rewrite Nat2Z.inj_succ.
+  assert (2 ^ 32 + 10 < 2 ^ 64) by reflexivity. lia.
 Qed.
 
 Section WithHash.
